@@ -33,6 +33,13 @@ pub fn get_at(slice: &[ValueType], index: usize) -> (r: &ValueType)
 {
 	if unsafe_performance() { get_unchecked_variant(slice, index) } else { get_checked_variant(slice, index) }
 }
+// smm::get called with a plain index anywhere else in the extracted code resolves to the same pair of variants
+pub fn get(slice: &[ValueType], index: usize) -> (r: &ValueType)
+	requires index < slice@.len()
+	ensures *r == slice@[index as int]
+{
+	get_at(slice, index)
+}
 
 pub open spec fn contains_num(s: Seq<R>, v: real) -> bool { exists|i: int| 0 <= i < s.len() && (#[trigger] s[i])@ == v }
 // an insertion point: everything before is <= v, everything from there on is >= v
